@@ -94,6 +94,3 @@ func sameKVs(a, b []kv) bool {
 	}
 	return true
 }
-
-// properExt: k = x ++ something non-empty.
-func properExt(k, x []byte) bool { return len(k) > len(x) && bytes.HasPrefix(k, x) }
